@@ -153,7 +153,9 @@ func runC11(c *core.Ctx, idx int) {
 	tbl.Types["mp.k"] = ast.NodeTypeAnyType
 
 	// bolt store for the sampled path
-	def := &schema.StoreDef{Type: "strs", BasePath: []string{"stores"}, Fields: []schema.Field{{Name: "f", Kind: schema.KStr}, {Name: "tags", Kind: schema.KList}, {Name: "mp", Kind: schema.KMap}}}
+	def := &schema.StoreDef{Type: "strs", BasePath: []string{"stores"}, Fields: []schema.Field{{Name: "f", Kind: schema.KStr}, {Name: "tags", Kind: schema.KList}, {Name: "mp", Kind: schema.KMap}, {Name: "u", Kind: schema.KStr}},
+		// u holds what f holds and has a (nullable) unique index: the index knows no entry for the empty string
+		Unique: []schema.UniqueDef{{Field: "u", Nullable: true}}}
 	sc := schema.Build([]*schema.StoreDef{def})
 	path := c.TempFile("c11")
 	db, err := sc.OpenDb(path)
@@ -401,6 +403,7 @@ func classifyEsc(s, got string) string {
 
 func c11Bolt(c *core.Ctx, db *boltz.DbImpl, st *schema.St, s string, cands []string) {
 	lit := ql.Lit(s)
+	uHolder := map[int]bool{} // rows whose unique-indexed field holds the row's string (the first row of each string)
 	err := db.Update(nil, func(ctx boltz.MutateContext) error {
 		// replace the rows
 		ids, _, _ := st.Store.QueryIds(ctx.Tx(), "true")
@@ -413,12 +416,19 @@ func c11Bolt(c *core.Ctx, db *boltz.DbImpl, st *schema.St, s string, cands []str
 		if err := st.Store.Create(ctx, &schema.Ent{Id: "rnull", Typ: "strs", V: map[string]any{"f": nil, "tags": []string{"zz"}}}); err != nil {
 			return err
 		}
+		seenU := map[string]bool{}
 		for i, cand := range cands {
 			tags := []string{"zz"}
 			if cand != "" {
 				tags = append(tags, cand)
 			}
-			if err := st.Store.Create(ctx, &schema.Ent{Id: fmt.Sprintf("r%02d", i), Typ: "strs", V: map[string]any{"f": cand, "tags": tags, "mp": map[string]any{"k": cand}}}); err != nil {
+			v := map[string]any{"f": cand, "tags": tags, "mp": map[string]any{"k": cand}}
+			if !seenU[cand] {
+				seenU[cand] = true
+				v["u"] = cand
+				uHolder[i] = true
+			}
+			if err := st.Store.Create(ctx, &schema.Ent{Id: fmt.Sprintf("r%02d", i), Typ: "strs", V: v}); err != nil {
 				return err
 			}
 		}
@@ -457,6 +467,9 @@ func c11Bolt(c *core.Ctx, db *boltz.DbImpl, st *schema.St, s string, cands []str
 		check("map element =", "mp.k = "+lit, func(_ int, cand string) bool { return cand == s })
 		check("map element in", "mp.k in ["+lit+"]", func(_ int, cand string) bool { return cand == s })
 		check("icontains and =", "f icontains "+lit+" and f = "+lit, func(_ int, cand string) bool { return cand == s })
+		check("unique-indexed field =", "u = "+lit, func(i int, cand string) bool { return uHolder[i] && cand == s })
+		check("unique-indexed field = (paged)", "u = "+lit+" skip 0 limit 5", func(i int, cand string) bool { return uHolder[i] && cand == s })
+		check("unique-indexed field in", "u in ["+lit+"]", func(i int, cand string) bool { return uHolder[i] && cand == s })
 		if s != "" {
 			check("anyOf in, after a miss on the same set", `anyOf(tags) in ["zz-none"] or anyOf(tags) in [`+lit+"]", func(_ int, cand string) bool { return cand == s })
 			check("anyOf !=, then = on the same set", `anyOf(tags) != "zz-none-a" and anyOf(tags) = `+lit, func(_ int, cand string) bool { return cand == s })
